@@ -127,6 +127,10 @@ def cell_xml(spec, string_attr=True) -> str:
 
 def table_xml(spec) -> str:
     out = ['<table:table table:name="T">']
+    if spec.get("pre_children"):
+        # what office suites write before the column declarations (ODF: title?, desc?, ..., office:forms?, table:shapes?)
+        out.append('<table:title>A title</table:title><table:desc>described</table:desc>'
+                   '<office:forms form:automatic-focus="false" form:apply-design-mode="false"/><table:shapes/>')
     # a valid ODF table declares at least one column and at least as many
     # columns as its widest row: top up (keeps shrunk specs valid inputs)
     cols = list(spec.get("cols", []))
@@ -662,6 +666,11 @@ def apply_sut(sut: TableSUT, op, aux):
             t.extend_rows([row] * len(op["rows"]))
         else:
             raise ValueError(how)
+    elif n == "live_row_rep_ge":
+        # the row ELEMENTS of the table as get_elements() hands them out (they share the table's row map)
+        rows = t.get_elements("table:table-row")
+        if rows:
+            rows[op["i"] % len(rows)].repeated = op["k"]
     elif n == "live_row_rep":
         t.get_row(op["y"], clone=False).repeated = op["k"]
     elif n == "live_cell_rep":
@@ -695,7 +704,7 @@ def reapply_with_arg(t, op, arg):
         raise ValueError(n)
 
 
-RAW_MUTATIONS = {"rstrip", "optimize_width", "transpose", "set_span", "del_span", "live_row_rep", "live_cell_rep", "live_row_op", "extend_rows_odd"}
+RAW_MUTATIONS = {"rstrip", "optimize_width", "transpose", "set_span", "del_span", "live_row_rep", "live_cell_rep", "live_row_op", "extend_rows_odd", "live_row_rep_ge"}
 
 
 def do_read(t, op):
